@@ -33,7 +33,7 @@ def main():
     patch = os.path.join(sdir, f"seed{n}.patch")
     demo_rs = os.path.join(sdir, f"seed{n}_demo.rs")
     demo_py = os.path.join(sdir, f"seed{n}_demo.py")
-    is_py = os.path.exists(demo_py) and not os.path.exists(demo_rs)
+    is_py = os.path.exists(demo_py) and (not os.path.exists(demo_rs) or "use ivp" not in open(demo_rs).read())
     demo = demo_py if is_py else demo_rs
     wt = f"/tmp/st-{prop}-{n}"
     sh(f"git -C /repo worktree remove --force {wt}")
@@ -47,6 +47,17 @@ def main():
             shutil.copy(demo, f"{wt}/tests/seed_demo.rs")
             rc, out = sh("cargo test --offline --test seed_demo 2>&1 | tail -15", cwd=wt, env=env)
             meta["demo_passes_without"] = ("test result: ok" in out)
+        def pydemo(tag):
+            e2 = dict(env); e2["PYO3_PYTHON"] = "/opt/veriftools/pyvenv/bin/python"
+            rc, out = sh("cargo build --features python --offline 2>&1 | tail -3", cwd=wt, env=e2)
+            d = f"{wt}/pyscratch_{tag}"
+            os.makedirs(d, exist_ok=True)
+            shutil.copy(f"{wt}/target/debug/libivp.so", f"{d}/ivp.abi3.so")
+            rc, out = sh(f"/opt/veriftools/pyvenv/bin/python {demo} {d} 2>&1 | tail -8", cwd=wt)
+            return rc, out
+        if is_py:
+            rc, out = pydemo("clean")
+            meta["demo_passes_without"] = ("PASS" in out and "FAIL" not in out)
         rc, out = sh(f"git apply {patch}", cwd=wt)
         meta["patch_applies"] = (rc == 0)
         if rc != 0:
@@ -63,6 +74,10 @@ def main():
             meta["demo_fails_with"] = ("test result: FAILED" in out or "panicked" in out)
             meta["demo_output_tail"] = out.strip().splitlines()[-6:]
             os.remove(f"{wt}/tests/seed_demo.rs")
+        if is_py:
+            rc, out = pydemo("mut")
+            meta["demo_fails_with"] = ("FAIL" in out)
+            meta["demo_output_tail"] = out.strip().splitlines()[-6:]
         shutil.rmtree(f"{wt}/target", ignore_errors=True)
         # run the checks against the mutated tree
         meta["checks"] = {}
